@@ -187,6 +187,25 @@ func (w *c04World) tokenLeases() map[string]bool {
 func (w *c04World) check() (sig, msg string) {
 	w.s.Drain()
 	snap := w.s.Phys.Snapshot()
+	// Phase 1, before any request presents one of the judged tokens: a lookup of a token
+	// whose revocation was left half done finishes that revocation as a side effect, which
+	// would repair exactly what is being judged (nobody is obliged to present a dead token
+	// again). Leases and cubbyhole data of dead tokens are judged on the state as it is.
+	for _, t := range w.toks {
+		if t.skip || t.alive {
+			continue
+		}
+		for _, id := range t.secrets {
+			if w.s.Rec.RevokedCount(id) == 0 {
+				return "lease-not-revoked", fmt.Sprintf("secret %s leased under revoked token %s was neither revoked nor queued for immediate revocation", id, t.name)
+			}
+		}
+		for _, k := range t.cubby {
+			if _, ok := snap[k]; ok {
+				return "cubbyhole-not-removed", fmt.Sprintf("cubbyhole data of revoked token %s is still in storage (%s)", t.name, k)
+			}
+		}
+	}
 	for _, t := range w.toks {
 		if t.skip {
 			continue
@@ -554,6 +573,15 @@ func TestVerifC04(t *testing.T) {
 						what := "not reached"
 						if failed != nil {
 							what = failed.String()
+						}
+						if os.Getenv("VERIF_DEBUG") != "" {
+							rc := ""
+							for _, tk := range w.toks {
+								for _, id := range tk.secrets {
+									rc += fmt.Sprintf(" %s:%s=%d", tk.name, id, s.Rec.RevokedCount(id))
+								}
+							}
+							fmt.Printf("DEBUG F %s t%d k=%d [%s] ok=%v attempts=%d revoked:%s queued=%v\n", kind, target, k, maskRun.ReplaceAllString(what, "#"), ok, attempts, rc, s.QueuedIDs())
 						}
 						if !ok && !s.Usable(w.toks[target].id) {
 							// no success was ever reported and the token is unusable: the statement imposes nothing
